@@ -406,6 +406,9 @@ func (f *File) seekWithoutLocking(offset int64, whence int) (int64, error) {
 				// Hand the error to the reading side instead of crashing the process
 				_ = writer.CloseWithError(err)
 			}
+
+			// Whatever has been restored (i.e. not a regular file), the reading side must see the end of the stream
+			_ = writer.Close()
 		}()
 
 		f.readOpReader = reader
@@ -589,6 +592,9 @@ func (f *File) Read(p []byte) (n int, err error) {
 				// Hand the error to the reading side instead of crashing the process
 				_ = writer.CloseWithError(err)
 			}
+
+			// Whatever has been restored (i.e. not a regular file), the reading side must see the end of the stream
+			_ = writer.Close()
 		}()
 
 		f.readOpReader = reader
